@@ -508,7 +508,7 @@ def level_grid(tier: str) -> list[LevelInst]:
                    ("and", [("exact", "name"), ("or", [("null", "fn"), ("not", ("exact", "sn"))])])),
     }
     for k, (mk, gen, shape) in comps.items():
-        add({"a": "And", "o": "Or", "n": "Not"}[k[0]], k, mk, gen, "compose", [fnc, snc, name], shape=shape)
+        add({"and": "And", "or": "Or", "not": "Not"}[shape[0]], k, mk, gen, "compose", [fnc, snc, name], shape=shape)
     return out
 
 
